@@ -128,8 +128,9 @@ Inductive dval := DVal (v : val) | DStrings (l : list bytes).   (* _UnconvertedS
 Record state := mkState {
   options : list (name * opt);
   deferred : list (name * dval);
-  subscriptions : list (N * list name);     (* OptManager.subscribe, in order *)
-  receivers : list N;                       (* changed.connect, after _notify_subscribers *)
+  (* both lists hold WEAK references: None = the callable has been garbage collected (dead entry) *)
+  subscriptions : list (option N * list name);   (* OptManager.subscribe, in order *)
+  receivers : list (option N);                   (* changed.connect, after _notify_subscribers *)
   log : list event                          (* newest first *)
 }.
 Definition init : state := mkState [] [] [] [] [].
@@ -140,6 +141,11 @@ Definition set_deferred (d : list (name * dval)) (s : state) : state :=
 Definition add_log (e : event) (s : state) : state :=
   mkState (options s) (deferred s) (subscriptions s) (receivers s) (e :: log s).
 Definition snapshot (o : list (name * opt)) : snap := dmap current o.
+(* the callables that are still alive, in list order (for ref in refs: r = ref(); if r is not None: ...) *)
+Fixpoint somes {A} (l : list (option A)) : list A :=
+  match l with [] => [] | Some x :: t => x :: somes t | None :: t => somes t end.
+Definition kill (l : N) (e : option N) : option N :=
+  match e with Some x => if N.eqb x l then None else e | None => None end.
 
 Inductive err := ETypeError | EOptionsError | EKeyError | ENotImplemented
                | EFuel                       (* nesting deeper than the fuel: distinct out-of-fuel result *)
@@ -214,7 +220,7 @@ Section Manager.
 
   (* ---- signals ---- *)
   Definition targets (s : state) (updated : list name) : list N :=
-    map fst (filter (fun p => intersects (snd p) updated) (subscriptions s)) ++ receivers s.
+    somes (map fst (filter (fun p => intersects (snd p) updated) (subscriptions s))) ++ somes (receivers s).
 
   (* SyncSignal.send: call the listeners in order; the first exception propagates *)
   Fixpoint notify (ls : list N) (updated : list name) (s : state) : state * nres :=
@@ -317,10 +323,15 @@ Section Manager.
 
   Definition subscribe (l : N) (opts : list name) (s : state) : state * result :=
     if forallb (fun n => dmem n (options s)) opts
-    then (mkState (options s) (deferred s) (subscriptions s ++ [(l, opts)]) (receivers s) (log s), ROk)
+    then (mkState (options s) (deferred s) (subscriptions s ++ [(Some l, opts)]) (receivers s) (log s), ROk)
     else (s, RErr EOptionsError).
   Definition connect (l : N) (s : state) : state * result :=
-    (mkState (options s) (deferred s) (subscriptions s) (receivers s ++ [l]) (log s), ROk).
+    (mkState (options s) (deferred s) (subscriptions s) (receivers s ++ [Some l]) (log s), ROk).
+  (* every callable of listener l is dropped and garbage collected: its weak references go dead.  The dead entries
+     stay in the lists (the code prunes them after a later send; when exactly is not observable by listeners). *)
+  Definition drop (l : N) (s : state) : state * result :=
+    (mkState (options s) (deferred s) (map (fun p => (kill l (fst p), snd p)) (subscriptions s))
+             (map (kill l) (receivers s)) (log s), ROk).
 
   (* ---- process_deferred ---- *)
   Fixpoint collect_deferred (d : list (name * dval)) (o : list (name * opt))
@@ -389,7 +400,8 @@ Section Manager.
   | Subscribe (l : N) (opts : list name)
   | Connect (l : N)
   | SetSpecs (specs : list (name * option bytes)) (defer : bool)
-  | ProcessDeferred.
+  | ProcessDeferred
+  | Drop (l : N).
 
   Definition step (o : op) (s : state) : state * result :=
     match o with
@@ -403,6 +415,7 @@ Section Manager.
     | Connect l => connect l s
     | SetSpecs specs d => set_specs specs d s
     | ProcessDeferred => process_deferred s
+    | Drop l => drop l s
     end.
 
   (* exceptions are caught by the caller; the history goes on *)
